@@ -1355,7 +1355,7 @@ class ReaderExtractor:
         plan = []
         for reg, body in regions:
             if self._only_skip(body):
-                plan.append(("skip", None, body))
+                plan.append(("skip", None, body, reg))
                 continue
             specs = []
             for b in reg:
@@ -1370,11 +1370,22 @@ class ReaderExtractor:
                     return False
             if not specs and not reg:
                 continue            # unreachable branch
-            plan.append(("alt", specs, body))
-        for kind, specs, body in plan:
+            plan.append(("alt", specs, body, reg))
+        for kind, specs, body, *rest_ in plan:
             if kind == "skip":
                 optset.skip_unknown = True
                 continue
+            if len(specs) > 1:
+                # several identifiers reach this branch and all it does is dispatch again on the same header (after naming
+                # parts of it): the inner chain is decided within this branch's region
+                pre = [b for b in body if isinstance(b, ast.Assign) and len(b.targets) == 1 and isinstance(b.targets[0], ast.Name)
+                       and not any(isinstance(x, (ast.Call, ast.Lambda, ast.Await, ast.NamedExpr)) for x in ast.walk(b.value))]
+                others = [b for b in body if b not in pre]
+                if len(others) == 1 and isinstance(others[0], ast.If) and all(body.index(b) < body.index(others[0]) for b in pre):
+                    saved_al = dict(st.get("aliases") or {})
+                    if all(self._note_alias(b.targets[0].id, b.value, st) for b in pre) and self._dispatch_chain(others[0], st, optset, hv, within=rest_[0]):
+                        continue
+                    st["aliases"] = saved_al
             inner_ifs = [b for b in body if isinstance(b, ast.If)]
             for sp in specs:
                 self._alt(body, sp, st, optset, hv)
